@@ -41,6 +41,10 @@ var modelled = map[string][]string{
 	// username/password are inputs of the Request.Write model; the rest delegate to the header.
 	"Request":  {"SetBody", "SetBodyRaw", "SetBodyString", "SetConnectionClose", "SetHost", "SetHostBytes", "SetRequestURI", "SetRequestURIBytes", "SetURI"},
 	"Response": {"SetBody", "SetBodyRaw", "SetBodyString", "SetConnectionClose", "SetStatusCode"},
+	// URI object reached through req.URI(): Model/ReqUri.v.  Update/UpdateBytes/Parse re-parse: the model continues from
+	// the object's state observed through its getters (UOObserved).  QueryArgs() mutators are Model/Args.v (Add/Set used).
+	"URI": {"SetQueryString", "SetQueryStringBytes", "SetPath", "SetPathBytes", "SetHost", "SetHostBytes", "SetUsername", "SetUsernameBytes",
+		"SetPassword", "SetPasswordBytes", "SetHash", "SetHashBytes", "SetScheme", "SetSchemeBytes", "Update", "UpdateBytes", "Parse"},
 }
 
 // no caller-controlled byte string reaches the head (integers, times, timeouts, per-request user values), or
@@ -50,11 +54,12 @@ var irrelevant = map[string][]string{
 	"ResponseHeader": {"SetContentRange", "SetLastModified"},
 	"Request":        {"SetBodyStream", "SetBodyStreamWriter", "SetTimeout", "SetUserValue", "SetUserValueBytes"},
 	"Response":       {"SetBodyStream", "SetBodyStreamWriter"},
+	"URI":            {},
 }
 
 func checkAPI() {
 	bad := false
-	for _, v := range []any{&fasthttp.RequestHeader{}, &fasthttp.ResponseHeader{}, &fasthttp.Request{}, &fasthttp.Response{}} {
+	for _, v := range []any{&fasthttp.RequestHeader{}, &fasthttp.ResponseHeader{}, &fasthttp.Request{}, &fasthttp.Response{}, &fasthttp.URI{}} {
 		t := reflect.TypeOf(v)
 		name := t.Elem().Name()
 		known := map[string]int{}
@@ -67,7 +72,7 @@ func checkAPI() {
 		seen := map[string]bool{}
 		for i := 0; i < t.NumMethod(); i++ {
 			n := t.Method(i).Name
-			if strings.HasPrefix(n, "Set") || strings.HasPrefix(n, "Add") {
+			if strings.HasPrefix(n, "Set") || strings.HasPrefix(n, "Add") || (name == "URI" && (strings.HasPrefix(n, "Update") || n == "Parse")) {
 				seen[n] = true
 				if known[n] != 1 {
 					fmt.Fprintf(os.Stderr, "C05: exported method %s.%s is not classified exactly once (modelled / irrelevant)\n", name, n)
@@ -127,6 +132,7 @@ type desc struct {
 	Auth     hlib.B `json:"auth,omitempty"`
 	S        hlib.B `json:"s,omitempty"`
 	Tag      string `json:"tag,omitempty"`
+	UOps     []op   `json:"uops,omitempty"` // requri: calls on the object returned by req.URI()
 	NoPeers  bool   `json:"nopeers,omitempty"` // bulk sweep cases: no second-opinion parsers (keeps the case files small)
 }
 
@@ -396,6 +402,60 @@ func applyReq(h *fasthttp.RequestHeader, o op) string {
 	panic("bad req op " + o.T)
 }
 
+// the URI object's state as its getters show it (query args not parsed yet / reset by Parse)
+func uriState(u *fasthttp.URI) string {
+	return hlib.App("mkUriObj", pk.Hex(u.Host()), pk.Hex(u.PathOriginal()), pk.Hex(u.Path()), pk.Hex(u.QueryString()),
+		"Args.emptyArgs", "false", hlib.Bool(u.DisablePathNormalizing), pk.Hex(u.Username()), pk.Hex(u.Password()))
+}
+
+func applyURI(u *fasthttp.URI, o op, np map[string][]byte) string {
+	k, v := []byte(o.K), []byte(o.V)
+	two := func(sf func(string), bf func([]byte)) {
+		if o.Vr%2 == 0 {
+			sf(string(v))
+		} else {
+			bf(v)
+		}
+	}
+	switch o.T {
+	case "SetQueryString":
+		two(u.SetQueryString, u.SetQueryStringBytes)
+		return hlib.App("UOSetQueryString", pk.Hex(v))
+	case "SetPath":
+		two(u.SetPath, u.SetPathBytes)
+		np[string(v)] = fasthttp.VerifNormalizePath(v)
+		return hlib.App("UOSetPath", pk.Hex(v))
+	case "SetHost":
+		two(u.SetHost, u.SetHostBytes)
+		return hlib.App("UOSetHost", pk.Hex(v))
+	case "SetUsername":
+		two(u.SetUsername, u.SetUsernameBytes)
+		return hlib.App("UOSetUsername", pk.Hex(v))
+	case "SetPassword":
+		two(u.SetPassword, u.SetPasswordBytes)
+		return hlib.App("UOSetPassword", pk.Hex(v))
+	case "SetHash":
+		two(u.SetHash, u.SetHashBytes)
+		return hlib.App("UOSetHash", pk.Hex(v))
+	case "SetScheme":
+		two(u.SetScheme, u.SetSchemeBytes)
+		return hlib.App("UOSetScheme", pk.Hex(v))
+	case "DisablePathNormalizing":
+		u.DisablePathNormalizing = o.B
+		return hlib.App("UODisablePathNormalizing", hlib.Bool(o.B))
+	case "QueryArgsAdd":
+		u.QueryArgs().AddBytesKV(k, v)
+		return hlib.App("UOQueryArgsAdd", pk.Hex(k), pk.Hex(v))
+	case "QueryArgsSet":
+		u.QueryArgs().SetBytesKV(k, v)
+		return hlib.App("UOQueryArgsSet", pk.Hex(k), pk.Hex(v))
+	case "Update": // re-parses (possibly relative to the current state): continue from the observed state
+		two(u.Update, u.UpdateBytes)
+		return hlib.App("UOObserved", uriState(u))
+	}
+	panic("bad uri op " + o.T)
+}
+
 // replace the value of the automatic Date line (the first "\r\nDate: " after the status line) by fixedDate
 func fixDate(out []byte, noDefaultDate bool) []byte {
 	if noDefaultDate {
@@ -656,6 +716,46 @@ func run(d desc) hlib.Case {
 			pk.Hex(d.Body), impl, hlib.List(peers))
 		c.Size = bb.Len()
 		c.Sig = "reqwrite:" + sigOf(bb.Bytes(), d.Ops) + fmt.Sprint(err == nil, parsed, d.UseHost, len(user) > 0, len(d.Body) > 0)
+	case "requri":
+		var req fasthttp.Request
+		var ops []string
+		for _, o := range d.Ops {
+			ops = append(ops, applyReq(&req.Header, o))
+		}
+		if d.HasURI {
+			req.SetRequestURIBytes(d.URI)
+			ops = append(ops, hlib.App("QOSetRequestURI", pk.Hex(d.URI)))
+		}
+		u := req.URI() // parses host + request URI
+		np := map[string][]byte{}
+		u0 := uriState(u)
+		var uops []string
+		for _, o := range d.UOps {
+			uops = append(uops, applyURI(u, o, np))
+		}
+		var tbl []string
+		for _, k := range hlib.SortedKeys(np) {
+			tbl = append(tbl, hlib.Tuple(pk.HexS(k), pk.Hex(np[k])))
+		}
+		req.UseHostHeader = d.UseHost
+		req.SetBody(d.Body)
+		parsed := fasthttp.VerifRequestParsedURI(&req)
+		var bb bytes.Buffer
+		bw := bufio.NewWriter(&bb)
+		err := req.Write(bw)
+		bw.Flush()
+		impl := hlib.None()
+		var peers []string
+		if err == nil {
+			impl = hlib.Some(pk.Hex(bb.Bytes()))
+			if !d.NoPeers {
+				peers = peersReq(bb.Bytes(), true)
+			}
+		}
+		c.Coq = hlib.App("CReqWriteU", hlib.List(ops), hlib.Bool(parsed), hlib.Bool(d.UseHost), hlib.List(tbl), u0, hlib.List(uops),
+			pk.Hex(d.Body), impl, hlib.List(peers))
+		c.Size = bb.Len()
+		c.Sig = "requri:" + sigOf(bb.Bytes(), d.UOps) + fmt.Sprint(err == nil, d.UseHost, len(d.Body) > 0, len(d.Ops))
 	case "connect":
 		c1, c2 := net.Pipe()
 		got := make(chan []byte, 1)
@@ -893,6 +993,16 @@ func sweepReq(v []byte) desc {
 	}}
 }
 
+func sweepURI(v []byte) []desc {
+	base := []byte("http://example.com/p?x=1")
+	path := append([]byte("/"), v...)
+	return []desc{
+		{Kind: "requri", Tag: "sweep", HasURI: true, URI: base, UOps: []op{{T: "DisablePathNormalizing", B: true}, {T: "SetPath", V: path}, {T: "SetQueryString", V: v, Vr: 1}, {T: "SetHost", V: v}}},
+		{Kind: "requri", Tag: "sweep", HasURI: true, URI: base, UOps: []op{{T: "SetPath", V: path, Vr: 1}, {T: "SetQueryString", V: v}, {T: "SetHash", V: v}, {T: "SetScheme", V: v}}},
+		{Kind: "requri", Tag: "sweep", HasURI: true, URI: base, UOps: []op{{T: "QueryArgsAdd", K: v, V: v}, {T: "QueryArgsSet", K: []byte("k"), V: v}, {T: "SetUsername", V: v}, {T: "SetPassword", V: v, Vr: 1}}},
+	}
+}
+
 func corpus() []desc {
 	var c []desc
 	// exhaustive: every byte value at each position of a 3-byte value, through every modelled setter.
@@ -921,6 +1031,21 @@ func corpus() []desc {
 			c = append(c, dr, dq)
 		}
 	}
+	// the URI object obtained from req.URI(): every byte through its setters (raw query string, raw path with
+	// DisablePathNormalizing, normalised path, host, userinfo, query args, fragment), then Request.Write
+	for p := 0; p < 3; p++ {
+		for b := 0; b < 256; b++ {
+			if !full && p != 1 && !interesting[byte(b)] {
+				continue
+			}
+			v := []byte("aaa")
+			v[p] = byte(b)
+			for _, d := range sweepURI(v) {
+				d.NoPeers = !interesting[byte(b)]
+				c = append(c, d)
+			}
+		}
+	}
 	// the multipart boundary setter overwrites Content-Type: separate sweep of the interesting bytes
 	for _, b := range []byte{0, '\r', '\n', ' ', ':', ';', '"', 0x7f, 0x80, 0xff, 'a'} {
 		c = append(c, desc{Kind: "req", Tag: "sweep-mp", Ops: []op{{T: "SetMultipartFormBoundary", V: []byte{'a', b, 'a'}}, {T: "SetMultipartFormBoundary", V: []byte{b, 'a', b}, Vr: 1}}})
@@ -933,6 +1058,13 @@ func corpus() []desc {
 		c = append(c, desc{Kind: "reqwrite", Body: []byte("hello"), HasURI: true, URI: []byte("http://example.com/p"), Ops: []op{{T: "SetMethod", V: []byte("POST")}, {T: "Set", K: []byte("X"), V: []byte(p)}}})
 		c = append(c, desc{Kind: "reqwrite", HasURI: true, URI: append([]byte("http://u:p@example.com/"), p...)})
 		c = append(c, desc{Kind: "reqwrite", HasURI: true, URI: []byte("/x"), HasHost: true, ReqHost: []byte(p)})
+		c = append(c, sweepURI([]byte(p))...)
+		c = append(c, desc{Kind: "requri", HasURI: true, URI: []byte("http://example.com/p"), UOps: []op{{T: "SetQueryString", V: []byte("a=1 HTTP/1.1\r\n" + p)}}},
+			desc{Kind: "requri", HasURI: true, URI: []byte("http://example.com/p"), Body: []byte("hello"), Ops: []op{{T: "SetMethod", V: []byte("POST")}},
+				UOps: []op{{T: "DisablePathNormalizing", B: true}, {T: "SetPath", V: []byte("/p HTTP/1.1\n" + p), Vr: 1}}},
+			desc{Kind: "requri", HasURI: true, URI: []byte("http://example.com/p?q"), UOps: []op{{T: "Update", V: []byte(p)}}},
+			desc{Kind: "requri", HasURI: true, URI: []byte("http://example.com/p?q"), UOps: []op{{T: "Update", V: append([]byte("?"), p...), Vr: 1}, {T: "SetHost", V: []byte(p), Vr: 1}}},
+			desc{Kind: "requri", Ops: []op{{T: "SetHost", V: []byte("example.com")}, {T: "SetRequestURI", V: []byte("/rel")}}, UseHost: true, UOps: []op{{T: "SetQueryString", V: []byte(p)}, {T: "SetHost", V: []byte(p)}}})
 	}
 	for _, k := range keys {
 		for vr := 0; vr < 4; vr++ {
@@ -1010,6 +1142,40 @@ func gen(r *rand.Rand, i int) desc {
 		}
 		return d
 	case 10:
+		if r.Intn(2) == 0 {
+			d := desc{Kind: "requri", UseHost: r.Intn(3) == 0, Body: hlib.Pick(r, [][]byte{nil, nil, []byte("hello")})}
+			if r.Intn(5) != 0 {
+				d.HasURI = true
+				d.URI = hlib.Pick(r, [][]byte{[]byte("http://example.com/a?b=c"), []byte("/rel?x=y"), []byte("http://user:pw@h.example/x"), append([]byte("http://h/"), randVal(r)...)})
+			}
+			if !d.HasURI || r.Intn(3) == 0 {
+				d.Ops = append(d.Ops, op{T: "SetHost", V: hlib.Pick(r, [][]byte{[]byte("example.com"), randVal(r)})})
+			}
+			usedArgs := false
+			n := 1 + r.Intn(5)
+			for j := 0; j < n; j++ {
+				switch r.Intn(11) {
+				case 0, 1:
+					d.UOps = append(d.UOps, op{T: "SetQueryString", V: randVal(r), Vr: r.Intn(2)})
+				case 2, 3:
+					d.UOps = append(d.UOps, op{T: "SetPath", V: hlib.Pick(r, [][]byte{[]byte("/a/b"), []byte("/a/../b c"), randVal(r), append([]byte("/"), randVal(r)...)}), Vr: r.Intn(2)})
+				case 4:
+					d.UOps = append(d.UOps, op{T: "SetHost", V: randVal(r), Vr: r.Intn(2)})
+				case 5:
+					d.UOps = append(d.UOps, op{T: hlib.Pick(r, []string{"SetUsername", "SetPassword", "SetHash", "SetScheme"}), V: randVal(r), Vr: r.Intn(2)})
+				case 6:
+					d.UOps = append(d.UOps, op{T: "DisablePathNormalizing", B: r.Intn(3) != 0})
+				case 7, 8:
+					usedArgs = true
+					d.UOps = append(d.UOps, op{T: hlib.Pick(r, []string{"QueryArgsAdd", "QueryArgsSet"}), K: hlib.Pick(r, [][]byte{[]byte("k"), randVal(r)}), V: randVal(r)})
+				default:
+					if !usedArgs {
+						d.UOps = append(d.UOps, op{T: "Update", V: hlib.Pick(r, [][]byte{[]byte("/new?z=1"), []byte("?q=2#f"), []byte("http://other.example/o"), []byte("rel"), randVal(r)}), Vr: r.Intn(2)})
+					}
+				}
+			}
+			return d
+		}
 		d := desc{Kind: "connect", Addr: hlib.Pick(r, [][]byte{[]byte("example.com:443"), randVal(r), hlib.Bytes(r, tokenish, 8)})}
 		if r.Intn(2) == 0 {
 			d.Auth = hlib.Bytes(r, []byte("ABCDabcd0189+/="), 12)
@@ -1024,7 +1190,7 @@ func main() {
 	checkAPI()
 	hlib.Main(hlib.Prop[desc]{
 		ID:       "C05",
-		Imports:  "From Coq Require Import Uint63.\nFrom FH Require Import Model.Base Model.PackedBytes Model.Cookie Model.HeaderWrite Check.C05Check.",
+		Imports:  "From Coq Require Import Uint63.\nFrom FH Require Import Model.Base Model.PackedBytes Model.Cookie Model.HeaderWrite Model.ReqUri Check.C05Check.\nFrom FH Require Model.Args.",
 		CaseType: "c05case",
 		CorrOK:   "corr_ok",
 		PropOK:   "prop_ok",
